@@ -450,15 +450,18 @@ func (root *Root) replaceArgVars(vars map[string]interface{}, v interface{}, at 
 		}
 	case map[string]interface{}:
 		if it, _ := BaseType(at).(*Input); it != nil {
+			// Work on a copy, the literal belongs to the parsed executable
+			// which can be resolved again with other variables.
+			cp := make(map[string]interface{}, len(tv))
 			for k, v := range tv {
 				var vt Type
 				if f := it.fields.get(k); f != nil {
 					vt = f.Type
 				}
-				tv[k], ea2 = root.replaceArgVars(vars, v, vt)
+				cp[k], ea2 = root.replaceArgVars(vars, v, vt)
 				ea = append(ea, ea2...)
 			}
-			if val, err = it.CoerceIn(val); err != nil {
+			if val, err = it.CoerceIn(cp); err != nil {
 				ea = append(ea, resWarnp(nil, "%s", err))
 			}
 		}
@@ -467,10 +470,12 @@ func (root *Root) replaceArgVars(vars map[string]interface{}, v interface{}, at 
 		if lt, _ := at.(*List); lt != nil {
 			mt = lt.Base
 		}
+		cp := make([]interface{}, len(tv))
 		for i, v := range tv {
-			tv[i], ea2 = root.replaceArgVars(vars, v, mt)
+			cp[i], ea2 = root.replaceArgVars(vars, v, mt)
 			ea = append(ea, ea2...)
 		}
+		val = cp
 	case Symbol:
 		bt := BaseType(at)
 		if et, _ := bt.(*Enum); et != nil {
